@@ -65,6 +65,15 @@
     it.  The teardown of `u` finalises every non-root object `u` allocated before `join` can return, so such a pointer
     dangles (`Out.dangling`): KF-C13-join-result-finalised.
 
+  * `call(x, a…)`: `Thread_Call` keeps `t->args = assign(alloc_raw(type_of(args)), args)` — a **raw** copy of the argument
+    tuple: pointers to the argument objects in a block no collector knows; `Thread_Mark` presents `t->tls` only.  Model:
+    `G.args` (per Thread object: the pointers in `t->args`); `Ev.spawn` is `call(x)` (an empty tuple), the event
+    `Ev.arg t u os` that follows it while `u` is still `ready` is the tuple `os` of `call(x, os…)` (the copy is made before
+    `pthread_create`; nothing of `u` can be observed before its prologue, so the order of the two halves is not
+    observable); `Ev.rdarg u i` is `get(args, $I(i))` in the thread function followed by a use of the object.  Nothing
+    marks through `t->args`: a collection of the argument's owner that does not find the object elsewhere (its own stack,
+    thread-local values, roots) finalises it while the thread uses it (`Out.dangling`): KF-C13-thread-arg-collected.
+
   What the model cannot exhibit: data races and memory-model effects (the model is sequentially consistent at op
   granularity), the pthread implementation, signals.  The C harness covers those by running real threads.
 -/
@@ -384,10 +393,12 @@ structure G where
   joined : Tid → Bool           -- pthread_join already performed on this thread
   wraps : List (Tid × Obj)      -- Thread objects made with `new(Thread, f)`: (thread, the managed object that is its `struct Thread`);
                                 -- a thread without an entry has a raw wrapper (new_raw / static / the main wrapper): no collector meets it
+  args : List (Tid × List Obj)  -- `t->args` of the Thread objects: the pointers in the raw copy of the argument tuple `Thread_Call` made
+                                -- (no entry = the empty tuple of `call(x)`); an entry of a thread that has finished is stale (freed by the epilogue)
 
 def G.init : G :=
   { thr := fun t => if t = 0 then TS.main else TS.unborn, cache := [], holder := fun _ => none,
-    counter := fun _ => 0, reg := fun _ => 0, joined := fun _ => false, wraps := [] }
+    counter := fun _ => 0, reg := fun _ => 0, joined := fun _ => false, wraps := [], args := [] }
 
 inductive Ev where
   | loc (t : Tid) (op : LOp)
@@ -402,11 +413,13 @@ inductive Ev where
   | rd (t u : Tid)                    -- read thread u's published cell
   | bind (t u : Tid)                  -- the object ⟨t, thrBase+u⟩ just allocated by t is `new(Thread, f)`: thread u's `struct Thread`
   | rdo (t u : Tid)                   -- dereference the pointer thread u published (`deref(out)`)
+  | arg (t u : Tid) (os : List Obj)   -- the argument tuple of `call(thread_u, os…)`: `t->args = assign(alloc_raw(type_of(args)), args)` (follows `spawn t u`)
+  | rdarg (t : Tid) (i : Nat)         -- thread t, in its function: `get(args, $I(i))` and a use of that object
 deriving Repr, Inhabited
 
 def Ev.tid : Ev → Tid
   | .loc t _ | .spawn t _ | .join t _ | .lock t _ | .trylock t _ | .unlock t _ | .winc t _ _ | .ld t _ | .st t _
-  | .rd t _ | .bind t _ | .rdo t _ => t
+  | .rd t _ | .bind t _ | .rdo t _ | .arg t _ _ | .rdarg t _ => t
 
 def running (g : G) (t : Tid) : Bool := (g.thr t).phase = .running
 
@@ -464,11 +477,12 @@ def step (cfg : Cfg) (g : G) : Ev → G × Out
     if !running g t then (g, .dead)
     else if wrapperGone g u then (g, .ub)         -- `call` on a Thread object that has been finalised
     else if (g.thr u).phase = .unborn then
-      ({ g with thr := upd g.thr u { g.thr u with phase := .ready } }, .spawned)
+      ({ g with thr := upd g.thr u { g.thr u with phase := .ready }, args := g.args.filter (fun a => a.1 ≠ u) }, .spawned)
     else if (g.thr u).phase = .done ∧ g.joined u = true then
       -- the Thread object is called again after its previous run was joined: a new pthread (`t->thread` is
       -- overwritten), the same `struct Thread` and so the same thread-local table
-      ({ g with thr := upd g.thr u { g.thr u with phase := .ready }, joined := upd g.joined u false }, .spawned)
+      ({ g with thr := upd g.thr u { g.thr u with phase := .ready }, joined := upd g.joined u false,
+                args := g.args.filter (fun a => a.1 ≠ u) }, .spawned)
     else (g, .bad)
   | .join t u =>
     if !running g t then (g, .dead)
@@ -519,6 +533,16 @@ def step (cfg : Cfg) (g : G) : Ev → G × Out
     else match (g.thr u).pubo with
       | none => (g, .noval)
       | some o => if (g.thr o.owner).fin.contains o then (g, .dangling o) else (g, .val o)
+  | .arg t u os =>
+    -- the tuple of `call(x, os…)`: enabled between `Thread_Call` and the prologue of the new thread
+    if !running g t then (g, .dead)
+    else if (g.thr u).phase = .ready then ({ g with args := (u, os) :: g.args.filter (fun a => a.1 ≠ u) }, .ok)
+    else (g, .bad)
+  | .rdarg t i =>
+    if !running g t then (g, .dead)
+    else match (g.args.lookup t).bind (fun os => os[i]?) with
+      | none => (g, .noval)                        -- no such argument
+      | some o => if (g.thr o.owner).fin.contains o then (g, .dangling o) else (g, .val o)
 
 /-- execute a schedule (any list of events: any number of threads, any interleaving); returns the trace -/
 def run (cfg : Cfg) : List Ev → G → G × List (Ev × Out)
@@ -533,23 +557,25 @@ def run (cfg : Cfg) : List Ev → G → G × List (Ev × Out)
 /-- what the schedule does to thread `u`'s component: its own local operations (a `join` of itself that raised is one:
     the thread's `pthread_join` failed with EDEADLK), and the moment it is spawned -/
 inductive Act where
-  | op (o : LOp)
+  | op (o : LOp) (fm : List Obj)    -- `fm`: what the mark phase of a collection is handed from the tables of Thread objects (`[]`: nothing)
   | born
 deriving Repr, Inhabited
 
 /-- the projection of an execution (trace) onto thread `u` -/
 def proj (u : Tid) : List (Ev × Out) → List Act
   | [] => []
-  | (.loc t op, _) :: s => if t = u then .op op :: proj u s else proj u s
+  | (.loc t op, _) :: s => if t = u then .op op [] :: proj u s else proj u s
   | (.spawn _ v, .spawned) :: s => if v = u then .born :: proj u s else proj u s
-  | (.join t v, .raised _) :: s => if t = u ∧ v = u then .op (.perr .join .edeadlk) :: proj u s else proj u s
+  | (.join t v, .raised _) :: s => if t = u ∧ v = u then .op (.perr .join .edeadlk) [] :: proj u s else proj u s
   | _ :: s => proj u s
 
-/-- thread `u` running alone: the projected actions, threaded through a class cache of its own -/
+/-- thread `u` running alone: the projected actions, threaded through a class cache of its own (`fm` of an action: the
+    contents of the tables of Thread objects that are *not running* which a collection of `u` is handed — data, like a
+    container `u` holds; `proj` hands nothing, `projM` hands the tables of the finished / not yet called Thread objects) -/
 def solo (cfg : Cfg) (u : Tid) : List Act → Cache → TS → TS × List Out
   | [], _, ts => (ts, [])
-  | .op o :: as, c, ts =>
-    let (ts1, c1, out) := lstep cfg u c [] o ts
+  | .op o fm :: as, c, ts =>
+    let (ts1, c1, out) := lstep cfg u c fm o ts
     let (ts2, outs) := solo cfg u as c1 ts1
     (ts2, out :: outs)
   | .born :: as, c, ts =>
@@ -586,6 +612,95 @@ def isolatedEv (cfg : Cfg) (g : G) : Ev → Bool
 def Isolated (cfg : Cfg) : List Ev → G → Bool
   | [], _ => true
   | e :: s, g => isolatedEv cfg g e && Isolated cfg s (step cfg g e).1
+
+/-! ### narrower isolation: a collection may walk any table as long as the walk of a *live* thread's table changes nothing -/
+
+/-- the part of `foreignMarks` that comes from Thread objects whose thread is not live (never called, or finished): those
+    tables are written by nobody (the model has no `set` on a Thread object other than `current(Thread)`), they are data
+    the collecting thread holds through `x` -/
+def frozenMarks (cfg : Cfg) (g : G) (t : Tid) (op : LOp) : List Obj :=
+  if cfg.foreignMark then ((heldOf g t op).filter (fun u => !isLive (g.thr u).phase)).flatMap (fun u => (g.thr u).tls.map (·.2)) else []
+
+/-- the sweep of this collection finalises the same objects whether or not the tables of the *live* threads whose Thread
+    objects it reaches are walked: every non-root entry of the collecting thread's registry is marked through all the
+    walked tables iff it is marked through the thread's own marks and the tables of the threads that are not live -/
+def walkNeutral (cfg : Cfg) (g : G) (t : Tid) : LOp → Bool
+  | .collect stack =>
+    match (g.thr t).gc with
+    | none => true
+    | some gc =>
+      let own := (g.thr t).tls.map (·.2) ++ stack.map (fun k => (⟨t, k⟩ : Obj))
+      gc.reg.all (fun e => e.2 || ((own ++ foreignMarks cfg g t (.collect stack)).contains e.1 ==
+                                   (own ++ frozenMarks cfg g t (.collect stack)).contains e.1))
+  | _ => true
+
+/-- event `e` keeps the threads isolated in the narrow sense: no sweep frees the Thread object of a live thread, and a
+    collection that walks the table of a live thread is not influenced by it (`walkNeutral`) -/
+def isolatedEvN (cfg : Cfg) (g : G) : Ev → Bool
+  | .loc t op => walkNeutral cfg g t op && keepsWrappersEv cfg g (.loc t op)
+  | _ => true
+
+/-- **the logical territory of KF-C13-mark-foreign-tls, exactly**: at no step does the table of a *live* thread decide
+    what a collection of another thread finalises (and no sweep frees the Thread object of a live thread).  Decidable.
+    Weaker than `Isolated` (`isolatedN_of_isolated`): collections by the maker between `call(x)` and `join(x)`, and tables
+    left behind by finished threads, are inside. -/
+def IsolatedN (cfg : Cfg) : List Ev → G → Bool
+  | [], _ => true
+  | e :: s, g => isolatedEvN cfg g e && IsolatedN cfg s (step cfg g e).1
+
+/-- the projection of a schedule onto thread `u`, executed from `g`: like `proj`, and every local operation is handed
+    the contents of the tables of the not-live Thread objects its mark phase reaches (`frozenMarks`) -/
+def actM (cfg : Cfg) (u : Tid) (g : G) (e : Ev) : Out → List Act :=
+  fun o => match e, o with
+  | .loc t op, _ => if t = u then [Act.op op (frozenMarks cfg g t op)] else []
+  | .spawn _ v, .spawned => if v = u then [Act.born] else []
+  | .join t v, .raised _ => if t = u ∧ v = u then [Act.op (.perr .join .edeadlk) []] else []
+  | _, _ => []
+
+def projM (cfg : Cfg) (u : Tid) : List Ev → G → List Act
+  | [], _ => []
+  | e :: s, g => actM cfg u g e (step cfg g e).2 ++ projM cfg u s (step cfg g e).1
+
+/-! ### arguments handed to a thread (`call(x, a…)`) -/
+
+/-- the argument objects of the threads that are live (between `call` and the return of `Thread_Init_Run`) -/
+def liveArgs (g : G) : List Obj :=
+  g.args.flatMap (fun a => if isLive (g.thr a.1).phase then a.2 else [])
+
+/-- `o` is not a plain `new` entry of the thread's registry: it is a root (`new_root`) or not managed at all (`new_raw`) -/
+def rootReg (ts : TS) (o : Obj) : Bool :=
+  match ts.gc with
+  | none => true
+  | some g => !g.reg.contains (o, false)
+
+/-- the program itself does not destroy an argument a live thread was given: it hands over objects that have not been
+    finalised, their owner does not `del` them and does not return (teardown) while they are plain `new` objects -/
+def argsNotDestroyedEv (g : G) : Ev → Bool
+  | .arg _ _ os => os.all (fun o => !(g.thr o.owner).fin.contains o)
+  | .loc t (.del o) => !(liveArgs g).contains o || o.owner ≠ t     -- `del` of another thread's object finalises nothing
+  | .loc t .end_ => (liveArgs g).all (fun o => o.owner ≠ t || rootReg (g.thr t) o)
+  | _ => true
+
+/-- … and every collection of an argument's owner finds the object elsewhere: on the owner's stack, among its
+    thread-local values, or as a root (nothing marks through `t->args`) -/
+def argSafeEv (g : G) : Ev → Bool
+  | .loc t (.collect stack) =>
+    (liveArgs g).all (fun o => o.owner ≠ t || stack.contains o.k || (g.thr t).tls.any (fun e => e.2 = o) || rootReg (g.thr t) o)
+  | e => argsNotDestroyedEv g e
+
+def ArgsNotDestroyed (cfg : Cfg) : List Ev → G → Bool
+  | [], _ => true
+  | e :: s, g => argsNotDestroyedEv g e && ArgsNotDestroyed cfg s (step cfg g e).1
+
+/-- **the arguments of live threads are kept by their owners**: at every step of the schedule.  Decidable. -/
+def ArgsSafe (cfg : Cfg) : List Ev → G → Bool
+  | [], _ => true
+  | e :: s, g => argSafeEv g e && ArgsSafe cfg s (step cfg g e).1
+
+/-- number of steps of the schedule outside `ArgsSafe` (the driver prints it) -/
+def argUnsafe (cfg : Cfg) : List Ev → G → Nat
+  | [], _ => 0
+  | e :: s, g => (if argSafeEv g e then 0 else 1) + argUnsafe cfg s (step cfg g e).1
 
 /-- number of steps of the schedule at which a collection walks the table of a live thread -/
 def races (cfg : Cfg) : List Ev → G → Nat
